@@ -221,6 +221,19 @@ class Forms:
         return res
 
 
+# ---- where the archive starts in the caller's file object (spec/ArMember.tla, variable base): ArFile(fileobj=f) reads
+# from the CURRENT position of f.  A stream "prefix + archive" is presented by any kind above (Forms over that stream)
+# and handed over positioned at len(prefix).  The prefix is a function of its length (a recorded mode "shared:gzip@15"
+# replays the same bytes) and looks like ar data: a reader that rewinds the file object meets a decoy archive.
+PREFIXES = {1: [1, 15, 8191, 61, 513, 7, 65537, 59], 2: [512, 8, 60, 68, 8192, 2, 4096, 131072]}     # base class of the model -> lengths
+PREFIX_ROT = [15, 512, 1, 8191, 8, 68, 61, 4096, 513, 60, 2, 8192, 7, 65537]
+
+
+def prefix_bytes(n):
+    unit = b"!<arch>\n" + b"%-16s%-12d%-6d%-6d%-8o%-10d`\n" % (b"decoy/", 0, 0, 0, 0o644, 6) + b"decoy\n"
+    return (unit * (n // len(unit) + 1))[:n]
+
+
 _rot = [0]
 
 
